@@ -871,7 +871,18 @@ impl TCheck {
                             16 => Some("LATE_É"),
                             _ => None,
                         };
-                        if let Some(l) = offending {
+                        // ... provided the error is the one the fault asks for (an inserted statement can also
+                        // push an existing reference of a long block out of its offset field, which is then
+                        // reported about that other label)
+                        let expected_kind = match kind {
+                            // (landing outside every block, the inserted label itself is the one without an address)
+                            0 | 12 | 13 | 15 => matches!(e.kind, K::OverlappingLabels | K::UndetAddrLabel),
+                            1 | 14 => matches!(e.kind, K::CouldNotFindLabel),
+                            5 | 10 | 16 => matches!(e.kind, K::UndetAddrLabel),
+                            7 => matches!(e.kind, K::OffsetExternal),
+                            _ => false,
+                        };
+                        if let Some(l) = offending.filter(|_| expected_kind) {
                             for sp in e.span.iter() {
                                 let t = src.get(sp.clone()).unwrap_or("");
                                 if t.to_uppercase() != l {
